@@ -101,7 +101,7 @@ def plan(tier):
     src = [KERNEL_HEAD]
     jobs = []
     kname = 'C13'
-    ints = ['i8', 'u8', 'i16', 'u16', 'i32', 'u32'] + (['i64', 'u64'] if thorough else [])
+    ints = ['i8', 'u8', 'i16', 'u16', 'i32', 'u32'] + (['u64'] if thorough else [])      # int64_t: out of memory (24 GB) with 20 recursion levels, not claimed
     for ts in ints:
         t = T(ts)
         cap = cap10(t)
@@ -117,7 +117,7 @@ def plan(tier):
         jobs.append(Job('%s.L1.to_chars.%s' % (PROP, ts), kname,
                         r'^auto cnl::to_chars<%s>\(char\*, char\*, %s const&, int\)$' % (dem(ts), dem(ts)),
                         tochars_contract(t), harness=harness_buf(None, t, nmax), prop=PROP, timeout=600, skip_this=False, inputs=['vp_in1', 'vp_in2'],
-                        shim=sname, shim_types=['u64', ts], oracle=orc, layer=1, unwind=cap + 3,
+                        shim=sname, shim_types=['u64', ts], oracle=orc, layer=1, unwind=cap + 3, object_bits=14 if t.bits >= 64 else 12, mem_gb=24,
                         solvers=('cadical', 'kissat') if t.bits >= 64 else ('minisat',)))
         # L2: to_chars_static always succeeds
         s2 = 'vp_tcs_' + ts
